@@ -44,13 +44,14 @@ def _check(out, exp, cont, model, what):
 
 def list_op(n: int, e0: int, e1: int, e2: int, e3: int, i: int, v: int, use_dec: bool, di: int) -> None:
     """
-    pre: 0 <= n <= 4 and -6 <= i <= 6 and 0 <= di < 11
+    pre: 0 <= n <= 6 and -8 <= i <= 8 and 0 <= di < 11
     post: True
     """
     hlib.enter(locals())
+    hlib.assume(hlib.deep() or (n <= 4 and -6 <= i <= 6))
     op = hlib.PARAM["lop"]
     text, model = LIST_OPS[op]
-    l = [e0, e1, e2, e3][:n]
+    l = [e0, e1, e2, e3, e0, e1][:n]
     idx = DEC_IDX[di] if use_dec else i
     exp, after = model(list(l), idx, v)
     out = run_eval(text, {'l': l, 'i': idx, 'v': v}, 1000)
